@@ -90,7 +90,9 @@ def predicate(draw, scope):
     """Source of a predicate over a str value v."""
     ss = _names(scope, 's')
     anyv = _names(scope, 'sv')
-    opts = ['lambda v: v != "b"', 'lambda v: len(v) > 1', 'lambda v: True']
+    # (a predicate's answer counts by its truth value: 0, '', [] and None say no, anything else says yes)
+    opts = ['lambda v: v != "b"', 'lambda v: len(v) > 1', 'lambda v: True', 'lambda v: len(v) - 1', 'lambda v: v[1:]',
+            'lambda v: [c for c in v if c == "a"]', 'lambda v: None', 'lambda v: (0,)']
     for x in ss:
         opts += ['lambda v: v == %s' % x, 'lambda v: len(v) > len(%s)' % x, 'lambda v: v != %s' % x,
                  'lambda v: v == %s' % x]
@@ -247,7 +249,9 @@ def rexpr(draw, depth, scope, ctx, tail=True, pyscope=None):
         return ('where', draw(str_tok(scope)), ('py', draw(predicate(pyscope))))
     if k in ('apply', 'applyl'):
         vals = _names(pyscope, 'siv')
-        fs = ['lambda v: [v]', 'lambda v: (v, 1)', 'lambda v: v']
+        # (results that are falsy are results like any other)
+        fs = ['lambda v: [v]', 'lambda v: (v, 1)', 'lambda v: v', 'lambda v: 0', 'lambda v: ""', 'lambda v: []', 'lambda v: None',
+              'lambda v: False']
         for x in vals:
             fs += ['lambda v: (v, %s)' % x] * 2
         f = ('py', draw(st.sampled_from(fs)))
